@@ -59,6 +59,11 @@ where
     }
 
     let live_for = live_until_ledger - current_ledger;
+    // Drop any previous offer first: `set` on a live temporary entry keeps that
+    // entry's TTL and `extend_ttl` never shortens it, so a shorter-lived offer
+    // replacing a longer-lived one would remain acceptable past its
+    // `live_until_ledger`.
+    e.storage().temporary().remove(pending_key);
     e.storage().temporary().set(pending_key, new);
     e.storage().temporary().extend_ttl(pending_key, live_for, live_for);
 }
